@@ -18,7 +18,7 @@
    no theorem); grammar validation and the regex extraction of variable references (oracles); and the
    absence of KeyError / IndexError / TypeError from the conductor on accepted definitions -- only
    "no evaluation failure escapes" (C11) and "compose fails only by fuel" are theorems. *)
-From Coq Require Import String List Bool ZArith.
+From Coq Require Import String List Bool ZArith Permutation.
 From Orq Require Import GenSpecMeta Base State Composer Inspect Conductor Api C11Proofs C14Proofs C15Proofs.
 Import ListNotations.
 Open Scope string_scope.
@@ -120,6 +120,18 @@ Example ex_C15_semantics :
         ("tasks.a.next[0].do", "undefined", "ghost"); ("tasks.a.next[1].do", "undefined", "ghost");
         ("tasks.j.next[0].do", "undefined", "phantom"); ("tasks.j.next[0].do", "undefined", "phantom")].
 Proof. split; vm_compute; reflexivity. Qed.
+
+(* [F] lifted to the whole report: inspect_semantics (all detectors, in detector order) contains the
+   entry of every reachable transition to an undefined task, and what inspect() lists under
+   "semantics" (sorted by schema path, then spec path) is a permutation of it: sorting loses nothing *)
+Theorem C15_inspect_reports_undefined : forall sp fuel l, inspect_semantics sp fuel = Val l ->
+  (forall t d w i, reach sp t -> In (d, w, i) (spec_next_tasks sp t) -> ~ is_command d -> ~ declared sp d ->
+     In (SE_undefined t i d) l)
+  /\ exists l', inspect_semantics_sorted sp fuel = Val l' /\ Permutation l' l.
+Proof.
+  intros sp fuel l H. split; [exact (semantics_reports_undefined sp fuel l H)|exact (semantics_sorted_perm sp fuel l H)].
+Qed.
+Print Assumptions C15_inspect_reports_undefined.
 
 (* [P] (d) the rolling context of ONE spec object (the workflow's input / vars / output, the
    properties of a task, of a with or retry spec, of a transition), given the incoming context ctx:
